@@ -381,6 +381,28 @@ def integer_siblings(ctx):
                                     if st or trig or t.ret in (NONE, None):
                                         bad = 'width mismatch is not refused'
                             _rep(ctx, wr, site, bad, 'RF10-integer', ['C06', 'C12'])
+                    if size == w:
+                        # boundary values and a value-independence run: with the written value left unbound no path
+                        # may refuse the write or skip the store (any guard on the value itself splits the paths)
+                        for newv in (0, 1, mask, None):
+                            inputs = {'obj->Key': 0x20000000 | flags, 'node->NodeId': nodeid, 'size': size,
+                                      'obj->Data': stored if direct else 0x7000, '*obj->Data': stored}
+                            if newv is not None:
+                                inputs['*buffer'] = newv
+                            trs = _run(m, wr, inputs, filt=lambda k, fld: True)
+                            site = '%s direct=%d nodeid=%d value=%s' % (wr, direct, nflag, 'any' if newv is None else hex(newv))
+                            bad = None
+                            tgt = 'obj->Data' if direct else '*obj->Data'
+                            for t in trs:
+                                st = [e for e in t.stores() if e[1] in ('obj->Data', '*obj->Data')]
+                                if [e[1] for e in st] != [tgt] or t.ret != NONE:
+                                    bad = 'a full-width value is refused or not stored on some path (stores %s, returns %s)' % (
+                                        [(e[1], e[2]) for e in st], t.ret)
+                                elif newv is not None and st[0][2] != ((newv - (nodeid if nflag else 0)) & mask):
+                                    bad = 'stores %s, required %d' % (st[0][2], (newv - (nodeid if nflag else 0)) & mask)
+                            if not trs:
+                                bad = 'no path'
+                            _rep(ctx, wr, site, bad, 'RF10-integer')
         for direct in (0, 1):
             for data in (0, 0x7000):
                 trs = _run(m, sz, {'obj->Key': 0x20000000 | (FL_D if direct else 0), 'obj->Data': data, 'width': 0})
